@@ -13,7 +13,7 @@
 From stdpp Require Import gmap list.
 From Coq Require Import NArith.
 From DC Require Import Ts Orswot OrswotInv OrswotLww OrswotTimely Actor ActorProofs Cluster ClusterProofs ClusterPayload Tracker
-  Distributor DistributorProofs TsDiff TsDiffProofs PollerPlan.
+  Distributor DistributorProofs TsDiff TsDiffProofs PollerPlan TrackerMulti.
 Open Scope N_scope.
 
 Section C01.
@@ -345,3 +345,60 @@ Theorem C01_recorded_keyspace_leaves_the_plan :
     (k' ∈ poller_plan (poller_record s node k t) node reported <->
      k' <> k /\ k' ∈ poller_plan s node reported).
 Proof. exact recorded_keyspace_leaves_the_plan. Qed.
+
+(** ** All keyspaces of a peer together ([TrackerMulti.v])
+
+    A peer with any number of keyspaces, writes to any of them, polls whose plan is the code's
+    ([planned] is what [KeyspaceTimestamps::diff] lists) and whose GetState replies may race with
+    writes (stamp read not after the set, the order of the code).  In every keyspace the recorded
+    stamp never exceeds what has been pulled; a keyspace a poll skips is one the polling node
+    already holds completely; and one poll after the last write leaves the polling node with every
+    write of EVERY keyspace, planned or skipped. *)
+Theorem C01_recorded_stamp_never_ahead_in_any_keyspace :
+  forall es k r,
+    m_wf_run m_init es -> m_recorded (mrun m_init es) k = Some r ->
+    r <= m_pulled (mrun m_init es) k /\ m_pulled (mrun m_init es) k <= version (mrun m_init es) k.
+Proof. exact recorded_le_pulled_all. Qed.
+
+Theorem C01_skipped_keyspace_is_complete :
+  forall es k,
+    m_wf_run m_init es ->
+    planned (mrun m_init es) k = false ->
+    m_pulled (mrun m_init es) k = version (mrun m_init es) k.
+Proof. exact skipped_keyspace_is_complete. Qed.
+
+Theorem C01_poll_after_last_write_pulls_every_keyspace :
+  forall es k,
+    m_wf_run m_init es ->
+    let s := mrun m_init es in
+    let s' := mstep s (MPoll (quiet s)) in
+    m_pulled s' k = version s' k /\ version s' k = version s k.
+Proof. exact quiescent_poll_pulls_every_keyspace. Qed.
+
+Theorem C01_planned_keyspaces_are_the_codes_diff :
+  forall (recorded reported : gmap N N) s k,
+    (forall k, m_recorded s k = recorded !! k) ->
+    (forall k, m_peer s k = reported !! k) ->
+    (planned s k = true <-> k ∈ ts_diff recorded reported).
+Proof. exact planned_is_ts_diff. Qed.
+
+(** Non-vacuity: two keyspaces; keyspace 1 is written during the poll between the two reads of
+    its reply (stamp at 2, set at 3), keyspace 2 is quiet.  The history is well-formed; afterwards
+    keyspace 1 is planned again (recorded 2, reported 3) and keyspace 2 is skipped, complete. *)
+Example C01_nonvacuous_multi_keyspace :
+  let r1 := fun k => if N.eqb k 1 then mkR 2 3 1 else mkR 1 1 0 in
+  let es := [MWrite 1; MWrite 2; MWrite 1; MPoll r1] in
+  m_wf_run m_init es /\
+  let s := mrun m_init es in
+  (version s 1, m_pulled s 1, m_recorded s 1, planned s 1) = (3, 3, Some 2, true) /\
+  (version s 2, m_pulled s 2, m_recorded s 2, planned s 2) = (1, 1, Some 1, false).
+Proof.
+  cbv zeta. split.
+  - cbn [m_wf_run m_wf_event]. repeat split.
+    all: unfold version in *; cbn [mstep m_peer m_init default from_option id] in *.
+    all: destruct (N.eqb_spec k 1) as [->|H1]; cbn in *.
+    all: try (destruct (N.eqb_spec k 2) as [->|H2]; cbn in *).
+    all: try discriminate.
+    all: match goal with H : Some _ = Some _ |- _ => injection H as <- end; cbn; lia.
+  - vm_compute. split; reflexivity.
+Qed.
